@@ -230,7 +230,7 @@ def main():
           "evidence_file": "/verif/evidence/%s.json" % pid,
           "replay_cmd_template": "./check %s --replay {path}" % pid,
           "engine": "coq+harness",
-          "level_claimed": {"category": "proof", "text": c["text"], "design_ref": c["design"]},
+          "level_claimed": {"category": "proof", "text": c["text"], "design_ref": "9.1 (as built), " + c["design"] + " (plan)"},
           "level_note": c["note"],
           "technique": c["technique"],
         })
